@@ -78,7 +78,7 @@ def part_parse(L, log):
     name_sl = Obj("[u8]")
     st.world["name"] = Cell(name_sl)
     st.world["value"] = Cell(Obj("[u8]"))
-    E.call(ex, st, r"^headers::<impl at src/proto/headers\.rs:2[^>]*>::parse$", [Obj("N"), Obj("V")])
+    E.call(ex, st, r"^headers::<impl[^>]*>::parse$", [Obj("N"), Obj("V")])
     outs = E.collect(ex, st)
     viols = []
     queries = 0
@@ -151,13 +151,28 @@ def part_request(L, log):
             return ex.make_enum(dest_ty, "None")
         return [Case(None, some), Case(z3.BoolVal(True), none)]
 
-    def c_ne(ex, st, key, argv, dest_ty, raw):
-        b = z3.Bool(E.fresh("authority_differs_from_host"))
+    # :authority and Host as two abstract strings with two relations between them: byte-identical, and equal ignoring
+    # ASCII case (what http's Authority == Authority means); identical implies equal-ignoring-case
+    identical = z3.Bool("authority_and_host_identical")
+    eq_ic = z3.Bool("authority_and_host_equal_ignoring_case")
 
-        def ap(ex, st, a):
-            st.world["differs"] = b
-            return b
-        return [Case(None, ap)]
+    def relation(term, negate):
+        def f(ex, st, key, argv, dest_ty, raw):
+            def ap(ex, st, a):
+                st.world["differs"] = z3.Not(identical)
+                st.world["compared"] = key
+                return z3.Not(term) if negate else term
+            return [Case(None, ap)]
+        return f
+
+    def c_host_to_authority(ex, st, key, argv, dest_ty, raw):
+        def ok(ex, st, a):
+            return ex.make_enum(dest_ty, "Ok", [Obj("http::uri::Authority")])
+
+        def bad(ex, st, a):
+            st.world["host_unparseable"] = True
+            return ex.make_enum(dest_ty, "Err", [Obj("http::uri::InvalidUri")])
+        return [Case(None, ok), Case(z3.BoolVal(True), bad)]
 
     def c_build(ex, st, key, argv, dest_ty, raw):
         def ok(ex, st, a):
@@ -169,13 +184,19 @@ def part_request(L, log):
             return ex.make_enum(dest_ty, "Err", [Obj("http::Error")])
         return [Case(None, ok), Case(z3.BoolVal(True), bad)]
     con = [
-        (r"^HeaderMap::get$", c_get_host), (r"^&str as PartialEq::ne$", c_ne), (r"^http::uri::Builder::build$", c_build),
+        (r"^HeaderMap::get$", c_get_host), (r"^http::uri::Builder::build$", c_build),
+        (r"^&?str as PartialEq::ne$|^HeaderValue as PartialEq::ne$", relation(identical, True)),
+        (r"^&?str as PartialEq::eq$|^HeaderValue as PartialEq::eq$", relation(identical, False)),
+        (r"^Authority as PartialEq::ne$", relation(eq_ic, True)), (r"^Authority as PartialEq::eq$", relation(eq_ic, False)),
+        (r"^Authority as TryFrom::try_from$|^Authority::try_from$|^Authority::from_maybe_shared$|^Authority as FromStr::from_str$", c_host_to_authority),
+        (r"as Into::into$|^HeaderValue::as_bytes$|^HeaderValue::to_str$", C.c_opaque),
         (r"^Uri::builder$|^http::uri::Builder::(authority|path_and_query|scheme)$|as_str$|as_bytes$", C.c_opaque),
         (r"^HeaderError::InvalidRequest$", C.c_opaque),
     ] + c08.base_contracts()
     ex = E.make_executor(L, [], con)
     fn = ex.find_fn(r"^headers::<impl[^>]*>::into_request_parts$")
     st = State()
+    st.pc.append(z3.Implies(identical, eq_ic))
     hdr = Obj("proto::headers::Header")
     pseudo = Obj("proto::headers::Pseudo")
     hdr.fields[(None, 0)] = Cell(pseudo)
@@ -207,8 +228,10 @@ def part_request(L, log):
                 viols.append({"key": "c12.request.accepted_without_method", "what": "a request without :method is accepted", "model": {}})
             if host is False and ex.feasible(s, z3.Not(a_some)):
                 viols.append({"key": "c12.request.accepted_without_authority", "what": "a request with neither :authority nor Host is accepted", "model": {}})
-            if host and differs is not None and ex.feasible(s, z3.And(a_some, differs)):
-                viols.append({"key": "c12.request.contradicting_authority_accepted", "what": "a request whose :authority and Host differ is accepted", "model": {}})
+            if host and ex.feasible(s, z3.And(a_some, z3.Not(identical))):
+                m = ex.model(s, z3.And(a_some, z3.Not(identical)))
+                viols.append({"key": "c12.request.contradicting_authority_accepted", "what": "a request whose :authority and Host are not identical is accepted",
+                              "model": {"equal_ignoring_case": z3.is_true(m.eval(eq_ic, True)), "compared_with": s.world.get("compared")}})
             if build is not True:
                 viols.append({"key": "c12.request.accepted_without_uri", "what": "a request is accepted although the URI builder refused", "model": {}})
         else:
@@ -216,8 +239,8 @@ def part_request(L, log):
                 wit["missing_method_refused"] = True
             if differs is not None and ex.feasible(s, differs):
                 wit["contradiction_refused"] = True
-            legit = z3.And(m_some, z3.Or(a_some, z3.BoolVal(bool(host))), z3.BoolVal(build is True),
-                           z3.Not(z3.And(a_some, z3.BoolVal(bool(host)), differs if differs is not None else z3.BoolVal(False))))
+            legit = z3.And(m_some, z3.Or(a_some, z3.BoolVal(bool(host))), z3.BoolVal(build is True), z3.BoolVal(not s.world.get("host_unparseable")),
+                           z3.Not(z3.And(a_some, z3.BoolVal(bool(host)), z3.Not(identical))))
             if ex.feasible(s, legit):
                 viols.append({"key": "c12.request.well_formed_request_refused", "what": "a request with :method, an authority and an accepted URI is refused", "model": {}})
     # responses
@@ -281,7 +304,7 @@ def part_iter(L, log):
     def go(st, depth):
         if depth > 9:
             raise Inconclusive("HeaderIter::next does not terminate within 9 calls")
-        E.call(ex, st, r"^headers::<impl at src/proto/headers\.rs:15[^>]*>::next$", [Ref(st.world["it"])])
+        E.call(ex, st, r"^headers::<impl[^>]*>::next$", [Ref(st.world["it"])])
         for s, ret in E.collect(ex, st):
             if z3.is_bv_value(ret.discr) and ret.discr.as_long() == 0:
                 done.append(s)
@@ -521,6 +544,8 @@ def replay_args(v):
     if k.startswith("c12.request."):
         flags = {"c12.request.accepted_without_method": "a", "c12.request.accepted_without_authority": "m",
                  "c12.request.contradicting_authority_accepted": "maH", "c12.request.well_formed_request_refused": "ma"}.get(k)
+        if k == "c12.request.contradicting_authority_accepted" and v.get("model", {}).get("equal_ignoring_case"):
+            flags = "maC"
         return ("c12_request_gate", [flags]) if flags else None
     if k.startswith("c12.send."):
         return ("c12_send_order", [])
